@@ -140,17 +140,23 @@ macro_rules! impl_numeric_cast {
 
         #[cfg(feature="time")]
         impl<U: TimeUnitTrait> Cast<DateTime<U>> for $T {
-            #[inline] fn cast(self) -> DateTime<U> { Cast::<i64>::cast(self).into() }
+            #[inline] fn cast(self) -> DateTime<U> {
+                if self.is_none() { DateTime::nat() } else { Cast::<i64>::cast(self).into() }
+            }
         }
 
         #[cfg(feature="time")]
         impl Cast<TimeDelta> for $T {
-            #[inline] fn cast(self) -> TimeDelta { Cast::<i64>::cast(self).into() }
+            #[inline] fn cast(self) -> TimeDelta {
+                if self.is_none() { TimeDelta::nat() } else { Cast::<i64>::cast(self).into() }
+            }
         }
 
         #[cfg(feature="time")]
         impl Cast<Time> for $T {
-            #[inline] fn cast(self) -> Time { Cast::<i64>::cast(self).into() }
+            #[inline] fn cast(self) -> Time {
+                if self.is_none() { Time::nat() } else { Cast::<i64>::cast(self).into() }
+            }
         }
 
 
